@@ -274,6 +274,33 @@ theorem parse_batch_terminates (fuel : Nat) (p : Comb) (hw : p.wf = true) (lvl :
 example : parseBatch 4 (.statement [5] (.tok 3) [8] (.tok 3)) .raise [[5, 3], [8, 1, 1], [3]] 0 = (.ret .truthy, 6) := by
   decide
 
+/-! ## manual lookaheads -/
+
+/-- a manual lookahead `self._tokens[self._index + k]` behind the strict guard `self._index + k < size` never raises
+    IndexError and never moves the cursor — for every k, token list and state (also at the very end of a chunk) -/
+theorem peek_guarded_no_index_error (toks : List Tok) (k : Nat) (t : Tok) (s : St) :
+    (peekAt toks k t .strict s).1 ≠ .internal ∧ (peekAt toks k t .strict s).2 = s :=
+  ⟨(peekAt_strict_safe toks k t s).1, peekAt_state toks k t .strict s⟩
+
+example : peekAt [5, 6, 7] 2 7 .strict ⟨0, 0, 0, .raise⟩ = (.ret .truthy, ⟨0, 0, 0, .raise⟩) := by decide
+example : peekAt [5, 6, 7] 3 7 .strict ⟨0, 0, 0, .raise⟩ = (.ret .falsy, ⟨0, 0, 0, .raise⟩) := by decide
+
+/-- the guard must be strict: with `index + k > size` as the bail-out test (i.e. `≤` to go on) a chunk that ends exactly
+    k tokens after the cursor — `… WINDOW w AS` with the lookahead for `(` at k = 3 — reads one past the end -/
+theorem peek_off_by_one_guard_index_error :
+    (peekAt [5, 6, 7] 3 0 .offByOne ⟨0, 0, 0, .raise⟩).1 = .internal ∧
+      (run [9, 5, 6, 7] 5 (.both (.tok 9) (.peekAt 3 0 .offByOne)) ⟨0, 0, 0, .immediate⟩).1 = .internal := by decide
+
+/-- every forward lookahead into the token list found in sqlglot/parser.py and sqlglot/parsers/*.py on this run sits
+    directly behind a strict bounds guard on the same index expression, and only the allow-listed methods have one
+    (finite table, decided completely; a new or differently guarded lookahead breaks the build) -/
+theorem parser_forward_lookaheads_guarded :
+    SqlglotModel.Generated.C05.forwardLookaheadSites.all
+        (fun x => x.2.2 == x.2.1 ++ " < len(self._tokens)" || x.2.2 == x.2.1 ++ " < size") = true ∧
+      (SqlglotModel.Generated.C05.forwardLookaheadSites.map (·.1)).eraseDups =
+        ["parser._advance", "parser._can_parse_named_window", "teradata._parse_function"] := by
+  decide +kernel
+
 /-! ## tokenizer: `_scan` makes progress although sub-scanners rewind -/
 
 namespace Scan
